@@ -189,6 +189,8 @@ TABLE.update({
     "c06_inlined_any_as_everything.diff": ("contracts.c16b", "_lower_inlined_bundle_condition", "BundleAnyExpr"),
     "c06_inlinable_signal_right_side.diff": ("contracts.c16b", "_is_inlinable_bundle_condition", None),
     "c06_inlined_operator_fixed.diff": ("contracts.c16b", "_lower_inlined_bundle_condition", "BundleAllExpr"),
+    "c01_integer_fold_becomes_signal.diff": ("e2e", 'Signal x = ("signal-A", 6);\nint a = 10;\nint b = 20;\nSignal r = (20 - 10) * x;\nSignal q = a + ((b - a) * x) / 100;\n', None),
+    "c15_int_parameter_constant_as_signal.diff": ("contracts.c15", "lower_function_call_inline", None),
     "c01_runtime_literal_value_zero.diff": ("e2e", 'Signal x = ("signal-X", 5);\nSignal r = ("signal-A", x + 1);\nSignal q = r * 2;\n', None),
     "fixrev_9610d51.diff": ("contracts.c01", "_try_fold_logical_chain", "OP = ||; shape wild OP c2"),
     "fixrev_d21aece.diff": ("contracts.c02", "_lower_bundle_filter_output_spec", "output: constant"),
